@@ -984,6 +984,15 @@ namespace
 	return reply ("\"st\":\"reject\",\"msg\":" + jstr (msg));
       }
 
+    // vocdrop=1 (with voc=grow): the vocabulary the query was compiled with is
+    // destroyed before the query runs; the query owns what it needs.
+    if (vs.grown != nullptr && arg (a, "vocdrop") == "1")
+      {
+	g_voc = vs.saved;
+	zw_vocabulary_destroy (vs.grown);
+	vs.grown = nullptr;
+      }
+
     zw_result *r = wrap ("zw_query_execute", [&] (zw_error **e) {
 	return zw_query_execute (q, in, e); }, &msg);
     if (r == nullptr)
